@@ -271,6 +271,29 @@ func oracleC17(c *RCase) *ev.Failure {
 	if strict == nil && uerr != nil {
 		return ev.Failf(sigOf("C17", "unmarshal-rejects-complete-message", mt), "bytes %.60x carry every required field but Unmarshal failed: %v", c.Value, uerr)
 	}
+	// the same bytes into a receiver that already holds a complete message (a second call on one object): what the
+	// receiver held before must not change the verdict
+	if prime, perr := refMarshal.Marshal(buildFull(mt.Desc, 0, 1)); perr == nil {
+		m3 := mt.New()
+		var e1, e2 error
+		if f := guard("C17", mt, "Unmarshal", func() {
+			if e1 = m3.(fastMsg).Unmarshal(append([]byte{}, prime...)); e1 == nil {
+				e2 = m3.(fastMsg).Unmarshal(append([]byte{}, c.Value...))
+			}
+		}); f != nil {
+			return f
+		}
+		if e1 == nil && strict != nil && e2 == nil {
+			kind := "unmarshal-into-used-receiver-accepts-missing-required/" + posOf(c.Unset)
+			if len(c.Value) == 0 {
+				kind = "unmarshal-into-used-receiver-accepts-missing-required/empty-input"
+			}
+			return ev.Failf(sigOf("C17", kind, mt), "bytes %.60x lack required field(s) [%s] (%v) but Unmarshal into a message that had been filled by an earlier Unmarshal returned no error", c.Value, unset, strict)
+		}
+		if e1 == nil && strict == nil && e2 != nil {
+			return ev.Failf(sigOf("C17", "unmarshal-into-used-receiver-rejects-complete-message", mt), "bytes %.60x carry every required field but Unmarshal into a used receiver failed: %v", c.Value, e2)
+		}
+	}
 	return nil
 }
 
@@ -289,7 +312,7 @@ func posOf(unset []string) string {
 }
 
 func TestC17(t *testing.T) {
-	rec := ev.New("C17", "case = (generated type - proto2, or proto3 with imported proto2 children - with required fields of its own or in children reached through a field / required field / list / map / oneof, subset of those required fields left unset); every subset is enumerated per type (up to 2^8) with the required scalars set to the zero value of their kind and to 1, and the complete message and every single-field subset with 7 further boundary values, plus the completely empty message and the empty input, plus inputs that carry the unset field's number with a mismatching wire type; oracle = reference verdict: Marshal fails <=> proto.CheckInitialized fails; generated Unmarshal of the reference's AllowPartial encoding fails <=> the strict reference Unmarshal fails; non-trivial = >= 1 required field unset; distinct by (type, subset, value choice)")
+	rec := ev.New("C17", "case = (generated type - proto2, or proto3 with imported proto2 children - with required fields of its own or in children reached through a field / required field / list / map / oneof, subset of those required fields left unset); every subset is enumerated per type (up to 2^8) with the required scalars set to the zero value of their kind and to 1, and the complete message and every single-field subset with 7 further boundary values, plus the completely empty message and the empty input, plus inputs that carry the unset field's number with a mismatching wire type; oracle = reference verdict: Marshal fails <=> proto.CheckInitialized fails; generated Unmarshal of the reference's AllowPartial encoding fails <=> the strict reference Unmarshal fails, into a fresh receiver and into one that a complete message was unmarshaled into before; non-trivial = >= 1 required field unset; distinct by (type, subset, value choice)")
 	defer rec.Write()
 	useRecorder(rec)
 	defer func() { t.Log(rec.Summary()); fmt.Print(rec.SurveyReport()) }()
